@@ -31,6 +31,7 @@ type app struct {
 	restored  int
 	refuse    map[string]bool // pubkey (upper) -> refuse
 	failNext  bool
+	failAfter bool // the next block is applied, then an error is reported (a reply lost on the way back)
 	states    []_state.State
 }
 
@@ -62,6 +63,10 @@ func (a *app) CommitHandler(b hg.Block) (proxy.CommitResponse, error) {
 	js, _ := json.Marshal(body)
 	a.bodies = append(a.bodies, string(js))
 	a.snapshots[b.Index()] = append([]byte{}, h...)
+	if a.failAfter {
+		a.failAfter = false
+		return proxy.CommitResponse{}, fmt.Errorf("reply lost")
+	}
 	return proxy.CommitResponse{StateHash: h, InternalTransactionReceipts: receipts}, nil
 }
 
